@@ -150,6 +150,9 @@ def judge(matrix, sec_cols, find_all, max_solutions, max_iter, naming, tap=False
     elif naming == "str":
         name_of = [f"c{j}" for j in range(c)]
         names = list(name_of)
+    elif naming == "revint":  # integer names that are a non-identity permutation of the positions
+        name_of = [c - 1 - j for j in range(c)]
+        names = list(name_of)
     else:
         name_of = [(j * 7 + 3) % 11 for j in range(c)]
         names = list(name_of)
@@ -294,20 +297,20 @@ def _basic_chunk(params, lo, hi):
 
 
 LIMITS = [(None, None)] + [(ms, None) for ms in (1, 2)] + [(None, mi) for mi in (1, 2, 3, 4, 5, 6)] + [(1, 2), (2, 3)]
-NAMINGS = ("default", "str", "perm")
+NAMINGS = ("default", "str", "perm", "revint")
 
 
 def _limits_chunk(params, lo, hi):
-    """index = (((matrix * S) + sec) * |LIMITS| + limit) * 3 + naming, find_all alternates and both run"""
+    """index = (((matrix * S) + sec) * |LIMITS| + limit) * |NAMINGS| + naming, find_all alternates and both run"""
     rows, cols, with_sec = params
     S = (1 << cols) if with_sec else 1
     r = new_result()
     for idx in range(lo, hi):
         if with_sec:
-            nm = NAMINGS[idx % 3]
-            k = idx // 3
+            nm = NAMINGS[idx % len(NAMINGS)]
+            k = idx // len(NAMINGS)
         else:  # naming rotates with the index instead of being crossed
-            nm = NAMINGS[idx % 3]
+            nm = NAMINGS[idx % len(NAMINGS)]
             k = idx
         ms, mi = LIMITS[k % len(LIMITS)]
         k //= len(LIMITS)
@@ -448,7 +451,7 @@ def jobs(tier, seed):
             js.append(Job(f"basic_{rows}x{cols}", 2 ** (rows * cols) * 2**cols * 2, _basic_chunk, (rows, cols, 1 if rows * cols <= 12 else 4), describe="all matrices x all secondary subsets x find_all; link tap on find_all runs"))
     for rows in (1, 2, 3):
         for cols in (1, 2, 3):
-            js.append(Job(f"limits_{rows}x{cols}", 2 ** (rows * cols) * 2**cols * len(LIMITS) * 3, _limits_chunk, (rows, cols, True), describe="max_solutions / max_iter / column naming cross, all secondary subsets"))
+            js.append(Job(f"limits_{rows}x{cols}", 2 ** (rows * cols) * 2**cols * len(LIMITS) * len(NAMINGS), _limits_chunk, (rows, cols, True), describe="max_solutions / max_iter / column naming cross, all secondary subsets"))
     qn = (1, 2, 3, 4, 5, 6, 7) if tier == "thorough" else (1, 2, 3, 4, 5, 6)
     js.append(Job("n_queens_secondary_diagonals", len(qn) * 16, _queens_chunk, qn, chunk=1, describe=f"n-queens for n in {qn} as exact cover with secondary diagonals, 4 row orders, find_all on/off, max_solutions None/2"))
     js.append(Job("large_structured", len(large_matrices()) * 3, _large_chunk, None, chunk=1, describe="70x70 identity (also reversed with a heavy first row), monomino/domino tilings of a 1x12 strip (233 covers) in three row orders, one with secondary columns; single solution, find_all, max_solutions=5"))
